@@ -25,7 +25,8 @@
 (***************************************************************************)
 EXTENDS ConnLifecycle, TLC
 
-CONSTANTS MaxRedir, Follow, KeepPrevious, MaxTls   \* MaxTls: bound on write/read rounds of a TLS handshake
+CONSTANTS MaxRedir, Follow, KeepPrevious, MaxTls,  \* MaxTls: bound on write/read rounds of a TLS handshake
+          DialAgainAfterRefusal   \* rejected design: when the dial fails (a proxy that refuses) another peer is dialled
 
 VARIABLES pc, L, redirs, cur, prev, tls, hs, viol
 vars == <<pc, L, redirs, cur, prev, tls, hs, viol>>
@@ -42,7 +43,9 @@ DialOk   == /\ pc = "top" /\ \E sec \in BOOLEAN :
                  /\ Emit(IF sec THEN "s" ELSE "d", Len(L.conns) + 1)
                  /\ pc' = (IF sec THEN "hs" ELSE "dialled") /\ hs' = (IF sec THEN 1 ELSE 0)
             /\ cur' = Len(L.conns) + 1 /\ UNCHANGED <<redirs, prev, tls>>
-DialFail == pc = "top" /\ Emit("n", Len(L.conns) + 1) /\ pc' = "fail" /\ UNCHANGED <<redirs, cur, prev, tls, hs>>
+DialFail == /\ pc = "top" /\ Emit("n", Len(L.conns) + 1)
+            /\ pc' = (IF DialAgainAfterRefusal /\ \A i \in 1..Len(L.conns) : ~L.conns[i].failed THEN "top" ELSE "fail")
+            /\ UNCHANGED <<redirs, cur, prev, tls, hs>>
 
 \* the variant: the previous response is only dropped once the next stream exists
 DropPrevLate == /\ pc \in {"dialled", "hs"} /\ prev # 0
